@@ -7,6 +7,7 @@ use crate::prelude::*;
 
 pub const CLONE: u8 = 0;
 pub const TWIN: u8 = 1; // two instances created independently
+pub const CLONE_FROM: u8 = 2; // an instance keyed differently, overwritten with Clone::clone_from
 
 macro_rules! block_clone_case {
     ($name:ident, $unw:expr, $ty:ident :: $t2:ident, $dir:ident, $how:expr, $bs:ty, $b:expr, $ivbs:ty, $ivlen:expr, $par:ty, $mbs:ty, $mb:expr) => {
@@ -20,6 +21,8 @@ macro_rules! block_clone_case {
             let h2: [u8; 2 * MB] = kani::any();
             let h3: [u8; MB] = kani::any();
             let c = Uf::<$bs, $par>::with_key(key);
+            let other_key: [u8; 2] = kani::any();
+            let other_iv: [u8; $ivlen] = kani::any();
             let mk = || $ty::$t2::inner_iv_init(c.clone(), blk::<$ivbs>(&iv));
             // references: fresh instances replaying h1;h2 and h1;h3
             let (mut a1, mut a2) = (h1, h2);
@@ -45,6 +48,11 @@ macro_rules! block_clone_case {
                 do_blocks!($dir, o, blocks_mut::<$mbs>(&mut x1));
                 let mut k = if $how == CLONE {
                     o.clone()
+                } else if $how == CLONE_FROM {
+                    // destination built with an unrelated key and IV, then overwritten
+                    let mut k = $ty::$t2::inner_iv_init(Uf::<$bs, $par>::with_key(other_key), blk::<$ivbs>(&other_iv));
+                    k.clone_from(&o);
+                    k
                 } else {
                     let mut k = mk();
                     let mut y1 = h1;
@@ -233,6 +241,42 @@ macro_rules! cts_clone_case {
     };
 }
 
+/// Hidden shared state: an instance with ANOTHER key but the SAME IV is created and used first; the
+/// subject created afterwards must still produce the specified keystream for its own key.
+macro_rules! other_first_stream {
+    ($name:ident, $unw:expr, $mk:expr, $ks:expr, $b:expr, $l:expr) => {
+        #[kani::proof]
+        #[kani::unwind($unw)]
+        pub fn $name() {
+            const B: usize = $b;
+            const L: usize = $l;
+            const NB: usize = (L + B - 1) / B;
+            let k1: [u8; 2] = kani::any();
+            let k2: [u8; 2] = kani::any();
+            let iv: [u8; B] = kani::any();
+            let mut ks = [0u8; NB * B];
+            $ks(P { key: k2, b: B }, &iv, &mut ks);
+            let mut a = $mk(k1, &iv);
+            let mut junk: [u8; 3] = kani::any();
+            a.apply_keystream(&mut junk);
+            let mut s = $mk(k2, &iv);
+            let d: [u8; L] = kani::any();
+            let mut buf = d;
+            s.apply_keystream(&mut buf);
+            let mut i = 0;
+            while i < L {
+                assert!(buf[i] == d[i] ^ ks[i], "an earlier instance (other key, same IV) influenced this one");
+                i += 1;
+            }
+            kani::cover!(k1[0] != k2[0]);
+        }
+    };
+}
+fn ks_belt(p: P, iv: &[u8], ks: &mut [u8]) { let s0 = spec::belt_s0(p, iv); spec::belt_ks(p, s0, 0, ks) }
+fn ks_ctr64le(p: P, iv: &[u8], ks: &mut [u8]) { spec::ctr_ks(p, spec::CTR64LE, iv, 0, ks) }
+fn ks_ofb(p: P, iv: &[u8], ks: &mut [u8]) { spec::ofb_ks(p, iv, ks); }
+fn mk_belt_plain(key: [u8; 2], iv: &[u8; 16]) -> belt_ctr::BeltCtr<UfE<U16, U1>> { belt_ctr::BeltCtr::new(&key.into(), blk::<U16>(iv)) }
+
 fn mk_ofb_b2(key: [u8; 2], iv: &[u8; 2]) -> ofb::Ofb<UfE<U2, U2>> { ofb::Ofb::new(&key.into(), blk::<U2>(iv)) }
 fn mk_ctr32be_b4(key: [u8; 2], iv: &[u8; 4]) -> ctr::Ctr32BE<UfE<U4, U2>> { ctr::Ctr32BE::new(&key.into(), blk::<U4>(iv)) }
 fn mk_ctr32le_b4(key: [u8; 2], iv: &[u8; 4]) -> ctr::Ctr32LE<UfE<U4, U1>> { ctr::Ctr32LE::new(&key.into(), blk::<U4>(iv)) }
@@ -266,6 +310,13 @@ bytes_clone_case!(bufenc_clone_b2, 48, mk_bufenc_b2, encrypt, CLONE, 2, 1, 3, 2)
 bytes_clone_case!(bufdec_clone_b2, 48, mk_bufdec_b2, decrypt, CLONE, 2, 1, 3, 2);
 bytes_clone_case!(ctr32be_twin_b4, 48, mk_ctr32be_b4, apply_keystream, TWIN, 4, 3, 5, 2);
 bytes_clone_case!(bufenc_twin_b2, 48, mk_bufenc_b2, encrypt, TWIN, 2, 1, 3, 2);
+block_clone_case!(cbc_enc_clone_from, 48, cbc::Encryptor, enc, CLONE_FROM, U2, 2, U2, 2, U2, U2, 2);
+block_clone_case!(cbc_dec_clone_from, 48, cbc::Decryptor, dec, CLONE_FROM, U2, 2, U2, 2, U2, U2, 2);
+block_clone_case!(cfb_enc_clone_from, 48, cfb_mode::Encryptor, enc, CLONE_FROM, U2, 2, U2, 2, U2, U2, 2);
+block_clone_case!(ige_dec_clone_from, 48, ige::Decryptor, dec, CLONE_FROM, U2, 2, U4, 4, U2, U2, 2);
+other_first_stream!(other_first_belt, 80, mk_belt_plain, ks_belt, 16, 17);
+other_first_stream!(other_first_ctr64le, 64, mk_ctr64le_b8, ks_ctr64le, 8, 9);
+other_first_stream!(other_first_ofb, 48, mk_ofb_b2, ks_ofb, 2, 5);
 ctr_core_clone!(ctr32be_core_clone, 48, Ctr32BE, u32, U4, 4, U2);
 ctr_core_clone!(ctr64le_core_clone, 64, Ctr64LE, u64, U8, 8, U2);
 ctr_core_clone!(ctr128be_core_clone, 80, Ctr128BE, u128, U16, 16, U1);
@@ -274,6 +325,12 @@ cts_clone_case!(cts_cbc_cs3_clone, 48, CbcCs3, dec, U2, 2, 5, 3);
 cts_clone_case!(cts_ecb_cs2_clone, 48, EcbCs2, enc, U2, 2, 5, 4);
 
 // ---- thorough --------------------------------------------------------------------------------
+block_clone_case!(t_pcbc_enc_clone_from, 48, pcbc::Encryptor, enc, CLONE_FROM, U2, 2, U2, 2, U2, U2, 2);
+block_clone_case!(t_pcbc_dec_clone_from, 48, pcbc::Decryptor, dec, CLONE_FROM, U2, 2, U2, 2, U2, U2, 2);
+block_clone_case!(t_cfb_dec_clone_from, 48, cfb_mode::Decryptor, dec, CLONE_FROM, U2, 2, U2, 2, U2, U2, 2);
+block_clone_case!(t_cfb8_enc_clone_from, 48, cfb8::Encryptor, enc, CLONE_FROM, U2, 2, U2, 2, U1, U1, 1);
+block_clone_case!(t_ofb_core_clone_from, 48, ofb::OfbCore, enc, CLONE_FROM, U2, 2, U2, 2, U2, U2, 2);
+block_clone_case!(t_ige_enc_clone_from, 48, ige::Encryptor, enc, CLONE_FROM, U2, 2, U4, 4, U2, U2, 2);
 block_clone_case!(t_cbc_dec_clone_b4_w3, 64, cbc::Decryptor, dec, CLONE, U4, 4, U4, 4, U3, U4, 4);
 block_clone_case!(t_pcbc_enc_twin, 48, pcbc::Encryptor, enc, TWIN, U2, 2, U2, 2, U2, U2, 2);
 block_clone_case!(t_ige_dec_twin, 48, ige::Decryptor, dec, TWIN, U2, 2, U4, 4, U2, U2, 2);
